@@ -11,7 +11,9 @@ for d in sorted(glob.glob(os.path.join(ROOT, "seeded", "C*-*"))):
     h = (m.get("caught_by", {}).get("history") or "caught by the check as it was").strip()
     res = m.get("caught_by", {}).get("result") or ""
     prop = re.search(r"== (C\d\d) rc=1", res)
-    if h.lower().startswith("missed") or "strengthened" in h.lower() or h.lower().startswith("first"):
+    if h.lower().startswith("not caught"):
+        status = "**not by this property's check** — " + re.sub(r"\s+", " ", h)[:300] + ("…" if len(h) > 300 else "")
+    elif h.lower().startswith("missed") or "strengthened" in h.lower() or h.lower().startswith("first"):
         status = "**strengthened** — " + re.sub(r"\s+", " ", h)[:260] + ("…" if len(h) > 260 else "")
     else:
         status = "as it was"
